@@ -63,6 +63,10 @@ def cases(tier, seed):
         for B in range(1, 9):
             for lo, hi in ((1.0, 5.0), (0.5, 64.0), (3.0, 3.5), (1e-3, 1e3)):
                 yield ('bins', scale, B, lo, hi)
+    # larger scope: thousands of samples x several IMFs, many bins (vectorised reference)
+    for scale in ('linear', 'log'):
+        for B in (7, 64, 300):
+            yield ('big', scale, B, 3000, 5, seed)
     for B in range(1, b['max_bins'] + 1):
         for scale in ('linear', 'log'):
             nal = 3 * B + 5
@@ -105,9 +109,51 @@ def brute(f, a, edges, mode):
     return out, out1
 
 
+def check_big(case):
+    from emd.spectra import hilberthuang, hilberthuang_1d, define_hist_bins
+    _, scale, B, T, M, seed = case
+    edges = define_hist_bins(1.0, 65.0, B, scale=scale)[0]
+    t = np.arange(T)[:, None]
+    m = np.arange(M)[None, :]
+    # deterministic frequencies sweeping through and beyond the range, hitting many edges exactly
+    f = 0.5 + ((t * (7 + 3 * m) + 11 * m + seed) % 1400) / 20.0
+    idx = (t * 5 + m) % (len(edges) * 3)
+    f = np.where(idx < len(edges), edges[np.minimum(idx, len(edges) - 1)], f)
+    a = 1.0 + ((t + 2 * m) % 8)
+    viols = []
+    bins = np.digitize(f, edges) - 1                    # reference: half-open bins via searchsorted semantics
+    ok = (f >= edges[0]) & (f < edges[-1])
+    for mode in ('energy', 'amplitude'):
+        v = a ** 2 if mode == 'energy' else a
+        exp2 = np.zeros((B, T))
+        exp1 = np.zeros((B, M))
+        tt, mm = np.where(ok)
+        np.add.at(exp2, (bins[tt, mm], tt), v[tt, mm])
+        np.add.at(exp1, (bins[tt, mm], mm), v[tt, mm])
+        try:
+            f_, a_ = f.copy(), a.copy()
+            dense = np.asarray(hilberthuang(f_, a_, edges.copy(), mode=mode))
+            sp = hilberthuang(f_, a_, edges.copy(), mode=mode, return_sparse=True)
+            one = np.asarray(hilberthuang_1d(f_, a_, edges.copy(), mode=mode))
+        except Exception as e:
+            viols.append(('big:raise:%s' % type(e).__name__, 'large instance %r raised %r' % (case, e)))
+            continue
+        if dense.shape != exp2.shape or not np.array_equal(dense, exp2):
+            viols.append(('big:dense', 'large instance %r mode=%s: dense spectrum differs from the per-sample histogram' % (case, mode)))
+        if not np.array_equal(np.asarray(sp.toarray()), dense):
+            viols.append(('big:sparse', 'large instance %r mode=%s: sparse and dense differ' % (case, mode)))
+        if one.shape != exp1.shape or not np.array_equal(one, exp1):
+            viols.append(('big:1d', 'large instance %r mode=%s: marginal spectrum differs from the per-sample histogram' % (case, mode)))
+        if not (np.array_equal(f_, f) and np.array_equal(a_, a)):
+            viols.append(('big:input-modified', 'large instance %r: inputs changed' % (case,)))
+    return Outcome(cls='mixed', transitions=6, viols=viols, nontrivial=True)
+
+
 def check_case(case):
     if case[0] == 'bins':
         return check_bins(case)
+    if case[0] == 'big':
+        return check_big(case)
     from emd.spectra import hilberthuang, hilberthuang_1d
     _, scale, B, T, M, amp, fi, seed = case
     edges, centres = edges_for(scale, B, seed)
